@@ -85,8 +85,11 @@ typedef struct chacha_context_str_s {
 
 #define CHACHA_PTR_IS_ALIGNED4(p)	(0 == (((size_t)p) & 3))
 #define CHACHA_PTR_IS_ALIGNED8(p)	(0 == (((size_t)p) & 7))
-#define CHACHA_PTR_8TO32(ptr)		((uint32_t*)(void*)(size_t)(ptr))
-#define CHACHA_PTR_8TO64(ptr)		((uint64_t*)(void*)(size_t)(ptr))
+/* Word access to byte buffers and to the uint32_t state: must be allowed to alias. */
+typedef uint32_t __attribute__((__may_alias__)) chacha_u32a_t;
+typedef uint64_t __attribute__((__may_alias__)) chacha_u64a_t;
+#define CHACHA_PTR_8TO32(ptr)		((chacha_u32a_t*)(void*)(size_t)(ptr))
+#define CHACHA_PTR_8TO64(ptr)		((chacha_u64a_t*)(void*)(size_t)(ptr))
 
 /* interpret four 8 bit unsigned integers as a 32 bit unsigned integer in little endian */
 static inline uint32_t
